@@ -319,6 +319,10 @@ int sim_pthread_cond_wait(pthread_cond_t *c, pthread_mutex_t *m)
 	if (((struct scond *)c)->magic != CMAGIC) fatal("COND-MISUSE-wait-uninit");
 	if (s->magic != MMAGIC || s->owner != tls_tid) fatal("COND-MISUSE-wait-unowned");
 	G.st.cond_waits++;
+	/* a real thread can be preempted between testing its predicate and
+	 * blocking; the mutex is still held here, so this only matters to code
+	 * that changes a predicate or signals without holding it (lost wake-up) */
+	schedule();
 	ts_rel(m);
 	s->owner = -1;
 	t->state = ST_WAIT_COND; t->obj = c; t->mtx = m;
